@@ -26,6 +26,7 @@ mod vk_foreach {
     #[kani::unwind(7)]
     #[kani::stub(crate::iter::atomic_counter::AtomicCounter::fetch_and_add, rg_faa)]
     #[kani::stub(crate::iter::atomic_counter::AtomicCounter::fetch_and_increment, rg_inc)]
+    #[kani::stub(crate::iter::atomic_counter::AtomicCounter::current, rg_cur)]
     fn foreach_slice() {
         let data: [u8; N] = kani::any();
         let len: usize = kani::any();
@@ -56,6 +57,7 @@ mod vk_foreach {
     #[kani::unwind(7)]
     #[kani::stub(crate::iter::atomic_counter::AtomicCounter::fetch_and_add, rg_faa)]
     #[kani::stub(crate::iter::atomic_counter::AtomicCounter::fetch_and_increment, rg_inc)]
+    #[kani::stub(crate::iter::atomic_counter::AtomicCounter::current, rg_cur)]
     fn fold_slice() {
         let data: [u8; N] = kani::any();
         let len: usize = kani::any();
@@ -80,6 +82,7 @@ mod vk_foreach {
     #[kani::unwind(7)]
     #[kani::stub(crate::iter::atomic_counter::AtomicCounter::fetch_and_add, rg_faa)]
     #[kani::stub(crate::iter::atomic_counter::AtomicCounter::fetch_and_increment, rg_inc)]
+    #[kani::stub(crate::iter::atomic_counter::AtomicCounter::current, rg_cur)]
     fn foreach_range() {
         let s: usize = kani::any();
         let len: usize = kani::any();
@@ -98,22 +101,22 @@ mod vk_foreach {
     }
 
     // documented panics for chunk size zero (C16): #[kani::should_panic] harnesses -- each passes iff the call panics
-    // @harness name=chunk_zero_panics_for_each props=C16,C12 kind=complete expect=panic
+    // @harness name=chunk_zero_panics_for_each group=default,nodebug props_nodebug=C17 props=C16,C12 kind=complete expect=panic
     #[kani::proof]
     #[kani::should_panic]
     fn chunk_zero_panics_for_each() { let data = [1u8, 2, 3]; let it = ConIterOfSlice::new(&data[..]); it.for_each(0, |_| {}); }
 
-    // @harness name=chunk_zero_panics_enumerate props=C16,C12 kind=complete expect=panic
+    // @harness name=chunk_zero_panics_enumerate group=default,nodebug props_nodebug=C17 props=C16,C12 kind=complete expect=panic
     #[kani::proof]
     #[kani::should_panic]
     fn chunk_zero_panics_enumerate() { let data = [1u8, 2, 3]; let it = ConIterOfSlice::new(&data[..]); it.enumerate_for_each(0, |_, _| {}); }
 
-    // @harness name=chunk_zero_panics_fold props=C16,C12 kind=complete expect=panic
+    // @harness name=chunk_zero_panics_fold group=default,nodebug props_nodebug=C17 props=C16,C12 kind=complete expect=panic
     #[kani::proof]
     #[kani::should_panic]
     fn chunk_zero_panics_fold() { let data = [1u8, 2, 3]; let it = ConIterOfSlice::new(&data[..]); let _ = it.fold(0, 0u8, |a, _| a); }
 
-    // @harness name=chunk_zero_panics_buffered props=C16 kind=complete expect=panic
+    // @harness name=chunk_zero_panics_buffered group=default,nodebug props_nodebug=C17 props=C16 kind=complete expect=panic
     #[kani::proof]
     #[kani::should_panic]
     fn chunk_zero_panics_buffered() { let data = [1u8, 2, 3]; let it = ConIterOfSlice::new(&data[..]); let _ = it.buffered_iter(0); }
